@@ -61,10 +61,13 @@ class CachingLoaderMixin(ABC, _CachingLoaderProtocol):
         thread_safe: bool = False,
     ):
         self.auto_reload = auto_reload
-        self.cache = (
-            ThreadSafeLRUCache[str, "Template"](capacity=capacity)
+        # Not `LRUCache[str, "Template"](...)`. Calling a subscripted generic class
+        # stores the alias on the instance, which makes it, and every template that
+        # refers to this loader through its environment, impossible to pickle.
+        self.cache: LRUCache[str, Template] = (
+            ThreadSafeLRUCache(capacity=capacity)
             if thread_safe
-            else LRUCache[str, "Template"](capacity=capacity)
+            else LRUCache(capacity=capacity)
         )
         self.namespace_key = namespace_key
 
